@@ -281,7 +281,8 @@ def setup():
     if rc != 0:
         log('gen failed')
         return 2
-    rc, out, dt = sh(['lake', 'build', 'PyElf', 'driver'], cwd=LEAN, timeout=7200)
+    props = sorted('PyElf.Props.' + os.path.basename(f)[:-5] for f in glob.glob(os.path.join(LEAN, 'PyElf', 'Props', '*.lean')))
+    rc, out, dt = sh(['lake', 'build', 'driver'] + props, cwd=LEAN, timeout=7200)
     log(out[-4000:])
     log('setup: lake build rc=%d in %.0fs (total %.0fs)' % (rc, dt, time.time() - t0))
     return 0 if rc == 0 else 2
